@@ -23,7 +23,7 @@ ASSUMPTIONS = [
     "arguments a class's signature does not accept are not passed to that class (signature parity is C16's subject)",
     "input errors (illegal keys) are not server or network failures and are not generated",
 ]
-MIN_NONTRIVIAL = {"quick": 4000, "thorough": 30000}
+MIN_NONTRIVIAL = {"quick": 4000, "thorough": 8000}
 REQUIRED_COUNTERS = ["failures_fired", "miss_equivalence_checks", "followup_roundtrips_ok"]
 SHARDS = {"quick": 16, "thorough": 16}
 TIMEOUT = {"quick": 900, "thorough": 7200}
@@ -79,6 +79,9 @@ def base_case(stack, nserv, extra, op, warm, prefill=None, serde=None, pre_ops=(
     faulted = len(ops)
     ops.append(op)
     ops.extend(post_health)
+    if stack.startswith("hash") and not post_health:
+        # 'afterwards the client is still usable': let retry_timeout / dead_timeout elapse first, as C13 specifies
+        ops.append(("advance", (500,), {}))
     ops.extend(FOLLOW)
     return {"stack": stack, "servers": servers_for(nserv), "cfg": cfg, "ops": ops, "faulted": faulted, "faults": {},
             "seg": ("whole",), "prefill": prefill or {}, "advance": 2 if stack.startswith("hash") else 0}
@@ -95,7 +98,7 @@ def miss_reference(case):
     return o.calls[0]["out"]
 
 
-def judge(res, case, o, miss, label):
+def judge(res, case, o, miss, label, hit=None):
     stack = o.world.stack
     f = case["faulted"]
     op = case["ops"][f]
@@ -107,8 +110,14 @@ def judge(res, case, o, miss, label):
     if out[0] != "ret":
         res.violation("read-raises:%s:%s:%s" % (stack, op[0], out[1]),
                       "%s.%s%r %r with ignore_exc raised %s (%s) under %s" % (stack, op[0], op[1], op[2], out[1], out[2], fclass), case)
+    elif hit is not None and hit[0] == "ret" and _same_hit(out[1], hit[1]):
+        res.count("reads_that_succeeded_despite_the_fault")
+    elif hit is not None and hit[0] == "ret" and isinstance(hit[1], dict) and isinstance(out[1], dict) \
+            and stack.startswith("hash") and len(case["servers"]) > 1 and _whole_servers(o.world.obj, out[1], hit[1]):
+        # several servers: the keys of the failing server are misses, the other servers' items are all there
+        res.count("reads_that_lost_exactly_one_servers_keys")
     elif miss[0] == "ret" and not same_shape(out[1], miss[1]):
-        res.violation("failure-result-differs-from-miss:%s:%s:%s" % (stack, op[0], dflt),
+        res.violation("failure-result-differs-from-miss:%s:%s:%s" % (stack, op[0], dflt + (":items-present" if hit is not None else "")),
                       "%s.%s%r %r under %s returned %r; the same call on an empty healthy server returns %r"
                       % (stack, op[0], op[1], op[2], fclass, out[1], miss[1]), case)
     # still usable afterwards
@@ -118,6 +127,46 @@ def judge(res, case, o, miss, label):
     else:
         res.violation("unusable-afterwards:%s:%s" % (stack, op[0]),
                       "after %s under %s, set+get returned %r" % (op[0], fclass, fo), case)
+
+
+def _same_hit(a, b):
+    """equal to the undisturbed result (cas tokens may differ between two servers' histories only in value, not shape)"""
+    return same_shape(a, b)
+
+
+def _whole_servers(hc, got, full):
+    groups = {}
+    for k in full:
+        groups.setdefault(hc.hasher.get_node(k), []).append(k)
+    for ks in groups.values():
+        present = [k in got for k in ks]
+        if any(present) and not all(present):
+            return False
+    return all(k in full and same_shape(got[k], full[k]) for k in got)
+
+
+PRESENT = {b"k1": (b"value-1", 0), b"k2": (b"value-22", 0), b"k3": (b"value-333", 0), b"warm": (b"w", 0)}
+
+
+def run_group_present(res, stack, nserv, extra, op, warm, tier, rng):
+    """items present: under a fault the read returns the miss result or - if the fault did no harm - the full undisturbed
+    result, never part of it"""
+    prefill = {i: dict(PRESENT) for i in range(nserv)}
+    case = base_case(stack, nserv, extra, op, warm, prefill=prefill)
+    miss = miss_reference(case)
+    o0 = history.execute(case)
+    hit = o0.calls[case["faulted"]]["out"]
+    if miss[0] != "ret" or hit[0] != "ret":
+        return
+    plans, calls = history.single_fault_plans(case, o0, tier, rng)
+    for plan in plans:
+        c = dict(case)
+        c["faults"] = plan
+        o = history.execute(c)
+        fired = len(o.net.fired)
+        res.count("failures_fired", fired)
+        judge(res, c, o, miss, "plan", hit=hit)
+        res.case((stack, nserv, tuple(sorted(extra.items())), op[0], repr(op[1:]), warm, "present", tuple(sorted(plan.items()))) if fired else None)
 
 
 def run_group(res, stack, nserv, extra, op, warm, tier, rng):
@@ -210,6 +259,9 @@ def shard(tier, seed, idx, n):
             work += 1
             if work % n == idx:
                 run_group(res, stack, nserv, extra, op, warm, tier, random.Random(seed * 7919 + work))
+            work += 1
+            if work % n == idx:
+                run_group_present(res, stack, nserv, extra, op, warm, tier, random.Random(seed * 7919 + work))
         work += 1
         if work % n == idx:
             server_down(res, stack, nserv, extra, op, tier)
